@@ -29,9 +29,21 @@ def fam_peer_send(seed, n):
 def fam_peer_recv(seed, n):
     return [scen.peer_recv(seed, i) for i in range(n)]
 
+@family("close")
+def fam_close(seed, n):
+    return [scen.close_script(seed, i) for i in range(n)]
+
+@family("many")
+def fam_many(seed, n):
+    return [scen.many_script(seed, i) for i in range(n)]
+
+@family("backlog")
+def fam_backlog(seed, n):
+    return [scen.backlog_script(seed, i) for i in range(n)]
+
 @family("kf")
 def fam_kf(seed, n):
-    return [scen.kf_d4(seed), scen.kf_d6(seed), scen.kf_d1b(seed), scen.kf_d14(seed), scen.kf_d6b(seed)]
+    return [scen.kf_d4(seed), scen.kf_d6(seed), scen.kf_d1b(seed), scen.kf_d14(seed), scen.kf_d6b(seed), scen.kf_d5(seed)]
 
 # ------------------------------------------------------------------------------------------
 def sample_of(script):
